@@ -97,11 +97,20 @@ def tie(ctx):
         for k in range(16 if quick else 150):
             n_req, n_meta, n_viol = len(reqs), len(metas), len(violations)
             try:
-                y = gen_gene.gen_gene(r, offsets=(10000, 20000), pseudogene=r.random() < 0.6, allow_mnp=False)
+                # every fourth locus is a few kilobases long (longer than the padding of the profile builder's scan windows)
+                y = gen_gene.gen_gene(r, offsets=(10000, 20000), pseudogene=r.random() < 0.6, allow_mnp=False, scale=12 if k % 4 == 0 else 1)
                 genome = r.choice(["hg19", "hg38"])
                 gene = gen_gene.load(y, genome)
                 a = r.randint(50000, 60000)
-                cnr = GRange("20", a, a + r.randint(100, 500))
+                ln = r.randint(100, 500)
+                if r.random() < 0.5:
+                    # a neutral region next to the locus (gap of a few hundred bases, either side): the profile builder
+                    # scans both with padded windows, reads must not be counted twice
+                    lo = min(rg.start for g_ in gene.regions for rg in g_.values())
+                    hi = max(rg.end for g_ in gene.regions for rg in g_.values())
+                    gap_ = r.randint(300, 900)
+                    a = hi + gap_ if r.random() < 0.5 else lo - gap_ - ln
+                cnr = GRange("20", a, a + ln)
                 clean = k % 2 == 0
                 g_reads = gene_reads(r, gene, clean, 120)
                 n_reads = neutral_reads_random(r, cnr, 60, clean)
